@@ -507,7 +507,7 @@ def k_generate(run, case):
         elif c["kind"] == "str":
             # (file / topic names; among them names that spell a literal of another type)
             tokens.append(["out_file.zip", "some/path.pdf", "name with space", "results", "false", "true", "True", "FALSE",
-                           "None", "null"][rng.integers(10)])
+                           "None", "null", "2024", "007", "1e3", "3.50"][rng.integers(14)])
     if rng.random() < .2:
         # the same valued option named twice (defaults from an alias first, the override last):
         # the last one counts, as with argparse
@@ -566,7 +566,9 @@ def k_generate(run, case):
         if not good:
             mech = "integer-became-float" if (c["kind"] == "int" and isinstance(mv, float)) else \
                 "negative-number-as-flag" if (c["kind"] in ("int", "float") and isinstance(dv, (int, float)) and dv < 0
-                                              and mv is True) else "other"
+                                              and mv is True) else \
+                "numeric-name-became-number" if (c["kind"] == "str" and isinstance(dv, str) and
+                                                 isinstance(mv, (int, float)) and not isinstance(mv, bool)) else "other"
             run.violation("generate:%s" % mech, "option %s: passing the arguments directly gives %r (%s) but "
                           "the generated config gives %r (%s); tokens %s -> config %s" %
                           (c["opt"], dv, type(dv).__name__, mv, type(mv).__name__, tokens, data), case)
